@@ -69,6 +69,12 @@ def check(ctx):
             continue
         n_used += 1
         bad = False
+        if res.get('approx') and (any(e['verdict'] == 'exploitable' for e in res['eda'])
+                                  or (res['ida'] and res['ida']['degree'] >= IDA_THRESHOLD and res['ida']['verdict'] == 'exploitable')):
+            # atomic groups / possessive repeats with a composite body cut backtracking in ways the
+            # position automaton does not model: an ambiguity found there may not be reachable
+            ctx.undecided('RX-AMB', name, f"ambiguity found, but the pattern commits in {res['approx'][:2]}: not decided")
+            continue
         for e in res['eda']:
             if e['verdict'] == 'exploitable':
                 bad = True
